@@ -37,7 +37,10 @@ DoApp(e) ==
 -------------------------------------------------------------------------------
 MintEvents ==
      {[act |-> "Mint", c |-> c, k |-> "nft", cls |-> cl, id |-> i, u |-> u, amt |-> 1] :
-        c \in AppSenders, cl \in NftNatives, i \in NftIds, u \in Users}
+        c \in AppSenders, cl \in {x \in NftNatives : TRUE}, i \in NftIds, u \in Users}
+     \ {e \in {[act |-> "Mint", c |-> m[1][1], k |-> "nft", cls |-> m[1][2], id |-> m[1][3], u |-> u, amt |-> 1] : m \in minted, u \in Users} : TRUE}
+     \* (a native NFT id is minted at most once per chain: re-minting an id whose token was burnt by a transfer would
+     \*  alias two assets in the lineage ghost)
 \cup {[act |-> "Mint", c |-> c, k |-> "mt", cls |-> cl, id |-> i, u |-> u, amt |-> n] :
         c \in AppSenders, cl \in MtNatives, i \in MtIds, u \in {"u1"}, n \in Amounts}
 
@@ -46,9 +49,9 @@ MtTokens(c)  == {<<x[1], x[2]>> : x \in led[c].sup}
 
 SendEventsApp ==
   UNION {   {[act |-> "AppSend", c |-> c, k |-> "nft", cls |-> t[1], id |-> t[2], u |-> u, rcv |-> rc, dst |-> d, relay |-> rl, amt |-> 1] :
-               t \in NftTokens(c), u \in Users, rc \in Receivers, d \in (Chains \ {c}) \cup {"Z"}, rl \in UserRelays}
+               t \in NftTokens(c), u \in Users, rc \in Receivers, d \in (Chains \ {c}) \cup {"Z"}, rl \in UserRelays \cup {"Z"}}
        \cup {[act |-> "AppSend", c |-> c, k |-> "mt", cls |-> t[1], id |-> t[2], u |-> u, rcv |-> rc, dst |-> d, relay |-> rl, amt |-> n] :
-               t \in MtTokens(c), u \in Users, rc \in Receivers, d \in (Chains \ {c}) \cup {"Z"}, rl \in UserRelays, n \in Amounts \cup {0}}
+               t \in MtTokens(c), u \in Users, rc \in Receivers, d \in (Chains \ {c}) \cup {"Z"}, rl \in UserRelays \cup {"Z"}, n \in Amounts \cup {0}}
         : c \in Chains}
 
 XferEvents ==
